@@ -94,6 +94,26 @@ theorem parse_display_exp {α : Type} [Arith α] (tok : α → String) (numOf : 
   refine ⟨?_, intoExp_toP tok numOf e h⟩
   simp only [Syntax.parseText, lex_displayExp tok numOf e h, Rooc.Syntax.Proofs.parse_tk hk]
 
+/-- **`parse (display constraint) = constraint`**: the TEXT that the ported `impl Display for Constraint`
+produces for a compiled constraint of the fragment (optional plain name, expressions in `Frag`, a comparison
+or a bare logic assertion) is cut by the lexer model into tokens that the `constraint` rule of the program
+parser model (C11, `Syntax/Program.lean`: `constraint_name`, `tagged_exp`, `comparison`, `parse_constraint`)
+reads as the `PreConstraint` with the same name, the same comparison / assertion flag and the trees
+`toP lhs`, `toP rhs` — which `into_exp` maps back to the constraint's own expressions. -/
+theorem parse_display_constraint {α : Type} [Arith α] (tok : α → String) (numOf : String → α) (c : Constraint α)
+    (h : FragC tok numOf c) :
+    Syntax.lex (displayConstraint tok c).toList = .ok (constraintDToks tok c)
+    ∧ Syntax.parseConstraint (constraintDToks tok c) = .ok (toPConstraint tok c, [])
+    ∧ intoExp numOf (toPConstraint tok c).lhs = some c.lhs
+    ∧ (c.isAssert = false → intoExp numOf (toPConstraint tok c).rhs = some c.rhs) := by
+  refine ⟨lex_displayConstraint tok numOf c h, parseConstraint_dToks tok numOf c h, intoExp_toP tok numOf c.lhs h.2.1, ?_⟩
+  intro ha
+  have hr : Frag tok numOf c.rhs := by
+    rcases h.2.2 with hr | hr
+    · rw [ha] at hr; cases hr
+    · exact hr
+  simpa [toPConstraint, ha] using intoExp_toP tok numOf c.rhs hr
+
 /-- non-vacuity: `x - (3 - -y) * 3 <= …`-style expression with the token `3` for every number -/
 example : Frag (fun _ : Ext K => "3") (fun _ => (Ext.fin 0 : Ext K))
     (.bin .sub (.var "x") (.bin .mul (.bin .sub (.num (.fin 3)) (.un .neg (.var "y"))) (.num (.fin 3)))) := by
@@ -105,6 +125,20 @@ example : Frag (fun _ : Ext K => "3") (fun _ => (Ext.fin 0 : Ext K))
   have hx : Rooc.Syntax.Proofs.plainWord "x".toList = true ∧ Syntax.isKeyword "x" = false := ⟨by decide, by decide⟩
   have hy : Rooc.Syntax.Proofs.plainWord "y".toList = true ∧ Syntax.isKeyword "y" = false := ⟨by decide, by decide⟩
   exact ⟨rfl, rfl, rfl, hx, rfl, rfl, rfl, ⟨rfl, rfl, rfl, hn, hy⟩, hn⟩
+
+/-- non-vacuity of `parse_display_constraint`: `cap: x <= 3` -/
+example : FragC (fun _ : Ext K => "3") (fun _ => (Ext.fin 0 : Ext K))
+    ⟨"cap", .var "x", .le, .num (.fin 3), false⟩ := by
+  have hn : NumOk (fun _ : Ext K => "3") (fun _ => (Ext.fin 0 : Ext K)) (.fin 3) :=
+    Or.inl ⟨by show isIntText "3" = true; decide, by show Syntax.digitsToNat "3".toList ≤ Syntax.i64Max; decide,
+      by show Arith.ofInt ((Syntax.digitsToNat "3".toList : Nat) : Int) = (Ext.fin 3 : Ext K)
+         have : Syntax.digitsToNat ['3'] = 3 := by decide
+         simp [Arith.ofInt, this]⟩
+  have h1 : Syntax.Proofs.plainWord "cap".toList = true := by decide
+  have h2 : Syntax.isKeyword "cap" = false := by decide
+  have h3 : Syntax.Proofs.plainWord "x".toList = true := by decide
+  have h4 : Syntax.isKeyword "x" = false := by decide
+  exact ⟨Or.inr ⟨h1, h2⟩, ⟨h3, h4⟩, Or.inr hn⟩
 
 /-- A logic node directly under an arithmetic operator is rendered without parentheses:
 `(b and d) + x` is printed `b and d + x`, whose tokens read back as `b and (d + x)`. -/
